@@ -324,9 +324,12 @@ func worker(w *runner.W) {
 		}
 	}
 	if !w.Quick() {
-		// five lines for one program of each accumulator family
-		for _, pn := range []string{"histo-inc", "table-inc", "bars", "reduce-group", "analyze-x"} {
-			jobs = append(jobs, job{e.progs[pn], corpora["A"], 5})
+		// five lines of corpus A for every program
+		for _, p := range programs() {
+			if only != "" && p.Name != only {
+				continue
+			}
+			jobs = append(jobs, job{p, corpora["A"], 5})
 		}
 	}
 	for _, j := range jobs {
@@ -775,10 +778,21 @@ func checkSnapshot(p *Program, ref *Ref, o *observation) (sig, msg string) {
 	switch {
 	case p.Cmd == "histogram":
 		// one line per key: key, then the count as the next field
-		if len(nonEmpty) != len(ref.counter) {
-			return "line-count", fmt.Sprintf("%d histogram lines, reference has %d keys", len(nonEmpty), len(ref.counter))
+		// the histogram displays keys with a count of at least --atleast
+		// (default 0): negative totals are exported but not displayed
+		shown := 0
+		for _, v := range ref.counter {
+			if v >= 0 {
+				shown++
+			}
+		}
+		if len(nonEmpty) != shown {
+			return "line-count", fmt.Sprintf("%d histogram lines, reference has %d keys with a count >= 0", len(nonEmpty), shown)
 		}
 		for k, v := range ref.counter {
+			if v < 0 {
+				continue
+			}
 			found := false
 			for _, l := range nonEmpty {
 				if strings.HasPrefix(l, k) {
@@ -1019,7 +1033,7 @@ func main() {
 			}
 			n := "3"
 			if tier == "thorough" {
-				n = "4 (and 5 for histo-inc, table-inc, bars, reduce-group, analyze-x on corpus A)"
+				n = "4 (and 5 on corpus A)"
 			}
 			return "real rare binary, one process per case: programs {" + strings.Join(pn, "; ") + "} x corpora {A plain, B gzip/plain alternating with -z, C with an unparsable increment and a non-matching line, D without any match} of " + n +
 				" lines `key|sub|number` (keys with comma, quote, CR, leading space) x every surjection of the lines onto 1..3 ordered files (every division x every argument order) x --workers {1,2,4} x --batch {1,2,1000} x --batch-buffer {1,4} x --readers {1,3} x GOMAXPROCS {1,4}; " +
